@@ -346,6 +346,26 @@ def project(spec, desc, cfg, o, res, calls, crash) -> dict:
                     rk.add(v)
         except Exception as ex:
             trend_raw, tpos_raw, sub_raw = None, None, None
+    # extensions (spec/AlgoRel.tla): loop bookkeeping and algorithm-private observables
+    lead_raw = [(pid(x[0]), x[1]) if x is not None else None for x in getattr(o, "_vlead", [])]
+    aux_raw = []
+    for a in getattr(o, "_vaux", []):
+        if not a or "aux_error" in a:
+            aux_raw.append(("none", [], [], 0))
+        elif "leaders" in a:
+            aux_raw.append(("greywolf", [(pid(p), c) for p, c in a["leaders"]], [], 0))
+        elif "pbest" in a:
+            aux_raw.append(("pso", [(pid(p), c) for p, c in a["pbest"]], [], 0))
+        elif "trials" in a:
+            aux_raw.append(("bee", [], a["trials"], a["limit"]))
+        else:
+            aux_raw.append(("none", [], [], 0))
+    for x in lead_raw:
+        if x is not None:
+            rk.add(x[1])
+    for _, a, _, _ in aux_raw:
+        for _, c in a:
+            rk.add(c)
     # calls: argument positions interned in the same table
     nph = max([c[0] for c in calls], default=-1) + 1
     callp = [[] for _ in range(max(nph, len(snaps)))]
@@ -393,6 +413,10 @@ def project(spec, desc, cfg, o, res, calls, crash) -> dict:
         "evo": [[[p, rk.rk(u), f] for (p, u, f) in gl] for gl in evo],
         "best": [best[0], rk.rk(best[1]), best[2]] if best else [1, 0, 1],
         "calls": callp, "crash": crash, "completed": res is not None,
+        "cyc": [int(c) for c in getattr(o, "_vcyc", [])],
+        "lead": [[x[0], rk.rk(x[1])] if x is not None else [0, 0] for x in lead_raw],
+        "aux": [{"kind": k, "a": [[p, rk.rk(c)] for p, c in a], "t": [int(v) for v in t], "limit": int(lim)} for k, a, t, lim in aux_raw],
+        "slotwise": opt in gen.GREEDY_EACH or os.environ.get("VERIF_SLOTWISE_ALL") == "1",
         "trend_ok": trend_raw is not None,
         "trend": [[rk.rk(v) for v in row] for row in (trend_raw or [])], "tpos": tpos_raw or [],
         "sub": ({"iters": sub_raw["iters"], "trend": [rk.rk(v) for v in sub_raw["trend"]], "pos": sub_raw["pos"],
@@ -439,7 +463,7 @@ def run_all(specs: list[dict], jobs: int = 14, timeout: int = 120) -> list[dict]
 
 TLC_FIELDS = ["id", "N", "dir", "D", "sizecls", "elitist", "kindp", "mc", "hasFe", "hasEs", "pat", "lefe", "dec", "nrates",
               "rate_ok", "steps", "gens", "ptab", "ftab", "dtab", "stab", "snaps", "evo", "best", "calls", "crash",
-              "completed", "cfg_same", "task_same", "trend_ok", "trend", "tpos", "sub", "repro", "reuse"]
+              "completed", "cfg_same", "task_same", "trend_ok", "trend", "tpos", "sub", "repro", "reuse", "cyc", "lead", "aux", "slotwise"]
 
 
 def judge_runs(records: list[dict], tag: str):
